@@ -2,9 +2,9 @@ from props import COMMON_TRUST
 
 
 def nontrivial(tok, res):
-    if tok[0] == "req":
+    if tok[0] in ("req", "treq"):
         return res.startswith("be=") and not res.startswith("be=-")
-    if tok[0] in ("ws", "connect"):
+    if tok[0] in ("ws", "connect", "tws", "tconnect"):
         return "up=" in res
     if tok[0] == "silent":
         return True
@@ -44,6 +44,10 @@ PROP = {
         "Frp.C02.model_reqHolds", "Frp.C02.model_respHolds",
         "Frp.C02.plugin_headers_preserved", "Frp.C02.plugin_h2h_drops_forwarded", "Frp.C02.plugin_h2h_witness",
         "Frp.C02.plugin_copy_keeps_forwarded", "Frp.C02.plugin_tls_xff", "Frp.C02.model_plugHolds",
+        "Frp.C02.headerTimeout_pos", "Frp.C02.streamed_exchange_complete", "Frp.C02.frp_streamed_exchange_complete",
+        "Frp.C02.header_timeout_bounded", "Frp.C02.answer_backend_iff", "Frp.C02.ctx_deadline_cuts_stream",
+        "Frp.C02.connect_tunnel_transparent", "Frp.C02.upgrade_tunnel_transparent", "Frp.C02.ctx_deadline_cuts_tunnel",
+        "Frp.C02.timedHolds_frp",
     ],
     "engines": [
         {"name": "http", "quick_n": 3000, "thorough_n": 12000, "thorough_seeds": 4,
@@ -57,7 +61,13 @@ PROP = {
             "absolute-form, 17 status codes, answers with Content-Length / chunked / close-delimited framing, route "
             "configs with RewriteHost / Headers / ResponseHeaders, register / unregister / re-register overlap, "
             "unreachable and silent backends (ResponseHeaderTimeoutS=1), WebSocket upgrade and CONNECT tunnels, hosts "
-            "spelling synthetic pool names, plus a malformed stream. Non-trivial = a request or tunnel that reached a "
+            "spelling synthetic pool names, plus a malformed stream. TIMED exchanges (treq / tws / tconnect, about 30 "
+            "per quick run, real sleeps): request bodies uploaded and answer bodies (cl / ch / eof) sent in 1-5 "
+            "pieces with pauses, header block 0-300 ms or 1700 ms late, tunnels of 1-3 rounds with idle periods "
+            "before / inside / between rounds; classes: whole exchange inside the 1 s header timeout, one phase alone "
+            "longer than it (1.3-1.8 s), phases each shorter that add up to more. Their time lines are replayed on "
+            "HttpTime.relay / upgrade / tunnel under frpLimits 1; timedHolds demands: backend reached, bodies byte for "
+            "byte (len + FNV), the user's read ended at the end of the body, 504 only for a late header block. Non-trivial = a request or tunnel that reached a "
             "backend; distinct = distinct (op line, result). The Lean predicates reqHolds / respHolds / freshB are "
             "evaluated on what the backend and the user really received.",
     "trusted": COMMON_TRUST + [
@@ -67,6 +77,10 @@ PROP = {
         "Accept-Encoding: gzip, Pragma->Cache-Control, Connection: close handling, Date / sniffed Content-Type, 304)",
         "bodies are opaque values in the theorems; byte-for-byte transport, chunked / Content-Length framing and the "
         "Transport's idle pool are net/http's and are only sampled (length + FNV-32a of what arrived)",
+        "model Frp/Model/HttpTime.lean (which clocks bound an exchange: Transport.ResponseHeaderTimeout between "
+        "'request written' and 'header block read', NO deadline on the request context, none at all on CONNECT) written "
+        "by hand from pkg/util/vhost/http.go and net/http transport.go / reverseproxy.go; tied to the code only by the "
+        "timed exchanges of the engine (real timers, nothing within 600 ms of the 1 s timeout)",
         "relational: which idle connection the Transport picked, framing of empty bodies and of answers, Content-Type "
         "sniffing of unknown-length answers (timer race inside ReverseProxy) are taken from the implementation's result",
     ],
@@ -78,13 +92,16 @@ PROP = {
         "uses it), about 35 requests per quick run; the frps+frpc e2e lattice (encryption, compression, limiter, "
         "mux) is not driven by this check",
         "TLS termination: X-Forwarded-Proto=https branch is proved but not sampled (vhost HTTP port is plain)",
+        "time: only vhostHTTPTimeout = 1 s is sampled and exchanges of up to about 3 s; the default 60 s, "
+        "Transport.IdleConnTimeout (60 s) and the http.Server of server/service.go (ReadHeaderTimeout only) are not "
+        "driven; time of arrival of streamed pieces (flushing) is not part of the property and not compared",
     ],
 }
 
 META = {
     "engine": "lean+harness(http)",
     "design_ref": "DESIGN.md §6 C02, §7 item 14",
-    "technique": "Lean 4 theorems over all requests / header maps / route configs / histories (per-header-key "
+    "technique": "Lean 4 theorems over all requests / header maps / route configs / histories / time lines (per-header-key "
                  "characterisation of the Rewrite and ModifyResponse closures around the standard reverse proxy, "
                  "pool-key injectivity via the base64 no-dot lemma, inductive invariant of the repaired idle pool) + "
                  "differential correspondence against the real HTTPReverseProxy over TCP with a recording backend",
@@ -93,13 +110,17 @@ META = {
             "address, X-Forwarded-Host/Proto set, Host rewritten iff RewriteHost is set, configured request / response "
             "headers carry exactly the configured value (map order irrelevant unless two keys collide after "
             "canonicalisation - witness), hop-by-hop headers dropped, status and body of answers untouched; the error "
-            "mapping has exactly the 504 / 404-page answers; the synthetic pool host is injective in (domain, "
+            "mapping has exactly the 504 / 404-page answers; on the clock model (response-header timeout only, no "
+            "deadline on the request context) every exchange whose header block arrives within the timeout relays "
+            "all request- and response-body pieces and every tunnel piece in order for ALL time lines (any dial time, "
+            "pace, idle period, total duration), a late header block gives 504 exactly timeout after the request was "
+            "written, and under ANY whole-exchange deadline some stream / tunnel is cut (why the hypothesis is needed); the synthetic pool host is injective in (domain, "
             "location, routeUser, endpoint). NOT true on the code as it is (witness theorems, reproduced on the real "
             "code, KNOWN_FINDINGS C02-pool-stale-owner and C02-pool-key-as-host): pooled backend connections survive "
             "UnRegister and serve a re-registered route from the former owner's backend, and a Host header spelling a "
             "pool name reaches a backend without any route. The repaired model (key carries the registration id, "
             "no-route requests never reach the Transport) satisfies the full statement for all histories. Tie: 3000 "
-            "generated ops per quick run.",
+            "generated ops per quick run, about 30 of them timed exchanges longer than / inside the header timeout.",
     "note": "Trusted: Lean kernel; hand-written models; net/http, httputil.ReverseProxy, http.Transport (assumed, "
             "sampled); harness generators and canonicalisation. Switch to the repaired model: HttpPool.poolIsFixed := true "
             "after committing hooks/C02-fix-pool-key.patch.",
